@@ -293,7 +293,8 @@ func registerNatives(e *Engine) {
 		if e.timeNow != nil {
 			e.assume(BVCmp("bvsle", e.timeNow, t))
 		} else {
-			e.assume(BVCmp("bvsle", I64C(0), t))
+			// the wall clock is never the zero Time (year 1)
+			e.assume(BVCmp("bvslt", I64C(0), t))
 		}
 		e.assume(BVCmp("bvslt", t, I64C(1<<60)))
 		e.timeNow = t
